@@ -1,30 +1,43 @@
 #!/usr/bin/env python3
-"""Apply each seeded change to /repo, run the owning check, undo. usage: run_seeded.py [tier] [ids...]"""
+"""Apply each seeded change to /repo, run the owning check, undo. usage: run_seeded.py [tier] [ids...]
+With SEED_SCRATCH=1 the change is applied in a scratch worktree of /repo (removed afterwards) and the check is
+pointed at it with VERIF_REPO, so that /repo stays untouched (for experiments while other runs use /repo)."""
 import json, os, subprocess, sys, time
 tier = sys.argv[1] if len(sys.argv) > 1 else 'quick'
 ids = sys.argv[2:] or sorted(os.listdir('/verif/seeded'))
 rows = []
+SCRATCH = os.environ.get('SEED_SCRATCH') == '1'
 for sid in ids:
     d = '/verif/seeded/' + sid
     if not os.path.isdir(d): continue
     meta = json.load(open(d + '/meta.json'))
     prop = meta['property']
-    st = subprocess.run(['git', '-C', '/repo', 'status', '--porcelain', '--untracked-files=no'], capture_output=True, text=True).stdout.strip()
-    assert st == '', '/repo not clean: ' + st
+    repo = '/repo'
+    env = dict(os.environ)
+    if SCRATCH:
+        repo = '/tmp/seedwt-%d' % os.getpid()
+        subprocess.run(['git', '-C', '/repo', 'worktree', 'remove', '--force', repo], capture_output=True)
+        subprocess.check_call(['git', '-C', '/repo', 'worktree', 'add', '-q', '--detach', repo, 'HEAD'])
+        env['VERIF_REPO'] = repo + '/v2'
+    env['VERIF_NO_EVIDENCE'] = '1'
+    st = subprocess.run(['git', '-C', repo, 'status', '--porcelain', '--untracked-files=no'], capture_output=True, text=True).stdout.strip()
+    assert st == '', repo + ' not clean: ' + st
     pf = d + '/patch_rebased.diff' if os.path.exists(d + '/patch_rebased.diff') else d + '/patch.diff'
-    ap = subprocess.run(['git', '-C', '/repo', 'apply', pf], capture_output=True, text=True)
+    ap = subprocess.run(['git', '-C', repo, 'apply', pf], capture_output=True, text=True)
     if ap.returncode != 0:
         rows.append((sid, 'PATCH-DOES-NOT-APPLY', ap.stderr.strip().splitlines()[0][:100] if ap.stderr.strip() else '', 0)); print(rows[-1], flush=True)
-        subprocess.run(['git', '-C', '/repo', 'checkout', '--', '.'])
+        subprocess.run(['git', '-C', repo, 'checkout', '--', '.'])
+        if SCRATCH: subprocess.run(['git', '-C', '/repo', 'worktree', 'remove', '--force', repo])
         continue
     t0 = time.time()
     try:
-        p = subprocess.run(['/verif/check', prop, tier], capture_output=True, text=True, timeout=3600)
+        p = subprocess.run(['/verif/check', prop, tier], capture_output=True, text=True, timeout=3600, env=env)
         out, rc = p.stdout, p.returncode
     except subprocess.TimeoutExpired:
         out, rc = '', 'timeout'
     finally:
-        subprocess.run(['git', '-C', '/repo', 'reset', '-q']); subprocess.run(['git', '-C', '/repo', 'checkout', '--', '.'])
+        subprocess.run(['git', '-C', repo, 'reset', '-q']); subprocess.run(['git', '-C', repo, 'checkout', '--', '.'])
+        if SCRATCH: subprocess.run(['git', '-C', '/repo', 'worktree', 'remove', '--force', repo])
     vio = [l for l in out.splitlines() if l.startswith('VIOLATION')]
     detail = [l.strip() for l in out.splitlines() if l.startswith('  harness=')]
     ne = [l for l in out.splitlines() if l.startswith('NOT-ESTABLISHED') or l.startswith('ENGINE')]
